@@ -181,16 +181,46 @@ def spherical(prog, ctx):
         ok = all(is_zero(v[i] - want[i]) for i in range(3))
         ctx.decide('C16.c', 'Spherical_Coordinates:plain', plain, ok, '(r sin t cos p, r sin t sin p, r cos t)', 'returns %s' % list(v), form=str(list(v)))
     ax = prog.fn(L + 'Spherical_Coordinates', 4)
-    sx = Symx(prog, ax, inline={L + 'operator*'})
-    outs = sx.run()
-    r, theta, phi = [sx.symbol(p['name'], 'double') for p in ax.params[:3]]
     axis = ax.params[3]['name']
     Nrm = Function(L + 'Vector::Normalized', real=True)
     obj = Symbol('obj:' + axis)
+
+    def normalize_summary(sx_, ob, key, args, st):
+        # v.Normalize() on an unmodified copy of the axis parameter leaves Normalized(axis) in v (C16.g inherits the obligations of
+        # C04.b about Vector::Normalize: every component divided by the Euclidean norm)
+        cur = st.env.get(key)
+        plain = (isinstance(cur, Symbol) and cur.name == axis) or (isinstance(cur, Arr) and not cur.defs and cur.name == axis)
+        if not plain:
+            raise Undecided('Normalize() on an object that is not a plain copy of the axis')
+        a = Arr(axis + ':normalised')
+        kv = sp.Dummy('k', integer=True)
+        a.defs.append(((kv,), S.true, Nrm(obj, kv)))
+        st.env[key] = a
+        return sp.Integer(0)
+
+    sx = Symx(prog, ax, inline={L + 'operator*', L + 'operator/', L + 'Vector::operator/'})
+    sx.method_summaries = {L + 'Vector::Normalize': normalize_summary}
+    try:
+        outs = sx.run()
+    except Undecided as ex:
+        ctx.undecided('C16.d', 'Spherical_Coordinates:axis', ax, str(ex))
+        return
+    r, theta, phi = [sx.symbol(p['name'], 'double') for p in ax.params[:3]]
     e_raw = [Nrm(obj, sp.Integer(i)) for i in range(3)]
     e = sp.symbols('e1 e2 e3', real=True)
-    esub = dict(zip(e_raw, e))
     NORM = Function(L + 'Vector::Norm', real=True)(obj)
+    NN = Symbol('N', nonnegative=True)
+    AXF = Function(axis, real=True)
+    # the raw axis is N times its unit vector: a component read off the raw axis is N e_i, one divided by Norm() is e_i again
+    esub = dict(zip(e_raw, e))
+    rawsub = {AXF(sp.Integer(i)): NN * e[i] for i in range(3)}
+    rawsub[NORM] = NN
+
+    def to_unit(x):
+        return x.subs(esub).subs(rawsub)
+    # provenance of the unit vector: components that reach the result or a guard as axis(i)/Norm() formed outside the verified
+    # normalisers equal e_i over the reals, but whether the quotient is exactly +-1 for an axis along z depends on how it is rounded
+    handmade = any(isinstance(o.value, Arr) and (vec3(o.value).has(NORM) or any(vec3(o.value).has(k_) for k_ in rawsub)) for o in outs if o.kind == 'return')
     CT, ST, CP, SP_ = sp.symbols('CT ST CP SP', real=True)
     AUX = Symbol('AUX', real=True)
     general = []
@@ -199,7 +229,7 @@ def spherical(prog, ctx):
         if o.kind != 'return':
             continue
         if isinstance(o.value, Arr):
-            vv = vec3(o.value).subs(esub)
+            vv = to_unit(vec3(o.value)).applyfunc(sp.simplify) if handmade else vec3(o.value).subs(esub)
             dens = sp.denom(sp.together(sum(vv)))
             if dens != 1 and dens.has(e[2]) or any(sp.denom(sp.together(x)) != 1 for x in vv):
                 general.append((o, vv))
@@ -248,12 +278,21 @@ def spherical(prog, ctx):
                    form=str(list(v)))
     # ---- C16.e: zeros of the divisor vs the guards of the general branch
     zeros = sp.solveset(sp.Eq(aux_rad, 0), e[2], domain=sp.Interval(-1, 1))
-    cond = o.cond.subs(esub)
+    cond = to_unit(o.cond)
     uncovered = []
     for z in zeros:
         cz = cond.subs(e[2], z)
         if cz != S.false:
             uncovered.append(z)
+    recips = [n for n in all_exprs(ax) if n.get('k') == 'Bin' and n.get('op') == '/' and strip_casts(n['lhs']).get('k') == 'Lit'
+              and strip_casts(n['lhs']).get('v', '').rstrip('fFlL').rstrip('0').rstrip('.') == '1']
+    if handmade and recips and not uncovered:
+        # x*(1/x) need not be exactly 1 in binary floating point although x/x always is: the exact guards `== +-1.0` then miss axes along z
+        ctx.undecided('C16.e', 'Spherical_Coordinates:divisor-zeros', ax,
+                      'the unit vector is formed by hand with a reciprocal (`%s`) instead of Normalized()/Normalize(): over the reals the guards exclude '
+                      'the zeros %s of the divisor, but whether axis(2)*(1/|axis|) is exactly +-1 for an axis along z depends on rounding, which this '
+                      'analysis does not decide' % (show(recips[0]), list(zeros)))
+        return
     ctx.decide('C16.e', 'Spherical_Coordinates:divisor-zeros', ax, not uncovered,
                'the guards exclude every zero %s of the divisor sqrt(%s) from the general branch' % (list(zeros), aux_rad),
                'the general branch divides by sqrt(%s), which vanishes at e3 in %s, but the guards (%s) do not exclude e3 = %s'
@@ -264,7 +303,7 @@ def spherical(prog, ctx):
     details = []
     plain_v = sp.Matrix([r * sin(theta) * cos(phi), r * sin(theta) * sin(phi), r * cos(theta)])
     for z in zeros:
-        sel = [(oo, vv) for oo, vv in special if oo.cond.subs(esub).subs(e[2], z).subs(NORM, 1) == S.true]
+        sel = [(oo, vv) for oo, vv in special if to_unit(oo.cond).subs(e[2], z).subs(NN, 1) == S.true]
         if len(sel) != 1:
             if z not in uncovered:
                 okcases = False
